@@ -155,6 +155,51 @@ def build_runner(work, overlay):
     return binp
 
 
+_race_runner = {}
+
+
+def build_race_runner(work, overlay):
+    """The native runner built with the Go race detector (lazily, only when a race is to be confirmed)."""
+    if "bin" in _race_runner:
+        return _race_runner["bin"]
+    binp = os.path.join(work, "runner-race.test")
+    r = subprocess.run(["go", "test", "-c", "-race", "-vet=off", "-overlay", overlay, "-o", binp, "./runner"],
+                       cwd=HARNESS_DIR, env=dict(ENV, CGO_ENABLED="1"), capture_output=True, text=True)
+    if r.returncode != 0:
+        log("race runner does not build:", r.stdout[-1500:], r.stderr[-1500:])
+        binp = None
+    _race_runner["bin"] = binp
+    return binp
+
+
+def confirm_race(v, case, work, overlay, tag):
+    """Replays the case under `go test -race`: the happens-before race predicted by the engine must be
+    reported by the Go race detector at (one of) the same source lines."""
+    binp = build_race_runner(work, overlay)
+    if not binp:
+        return False, "race runner unavailable"
+    c = dict(case)
+    c["repeat"] = 1
+    cpath = os.path.join(work, f"cases-{tag}.json")
+    json.dump([c], open(cpath, "w"))
+    sites = re.findall(r"@([\w/.\-]+\.go:\d+)", v["label"])
+    out = ""
+    for attempt in range(8):
+        try:
+            r = subprocess.run([binp, "-test.run", "TestRun", "-test.timeout", "120s", "-cases", cpath, "-out", os.path.join(work, f"native-{tag}.json")],
+                               cwd=os.path.join(HARNESS_DIR, "runner"), env=dict(ENV, GORACE="halt_on_error=0"), capture_output=True, text=True, timeout=150)
+            out = r.stdout + r.stderr
+        except subprocess.TimeoutExpired:
+            continue
+        if "WARNING: DATA RACE" in out:
+            hit = [s_ for s_ in sites if s_ in out]
+            if hit:
+                return True, "go race detector reports the same race natively at " + ", ".join(hit)
+    if "WARNING: DATA RACE" in out:
+        return False, "go race detector reports a race, but not at the predicted lines"
+    return False, "go race detector silent in 8 native runs"
+
+
 def run_native(binp, cases, work, tag, timeout=600):
     """Each case runs in its own batch process so a crash/deadlock is attributed correctly."""
     cpath = os.path.join(work, f"cases-{tag}.json")
@@ -299,7 +344,9 @@ def main():
                 continue
             ok, detail = (False, "runner unavailable")
             if runner:
-                if h.get("native_replay", True):
+                if v["kind"] == "race":
+                    ok, detail = confirm_race(v, case, work, overlay, "race-" + hsh)
+                elif h.get("native_replay", True):
                     nres, err = run_native(runner, [case], work, "replay-" + hsh, timeout=120)
                     if nres:
                         ok, detail = native_confirms(v, nres[0])
